@@ -210,6 +210,7 @@ type CmpOpt struct {
 	VanishedSitesDC bool // sites left by vanished list members are don't-care
 	AllowDropPoint  bool // KNOWN join-drops-point-after-range listed
 	MaxCoord        int  // every coordinate must lie in [0,MaxCoord]; <0: unchecked
+	CyclicL         int  // >0: parts abutting across the origin of a circular sequence of this length also form a don't-care junction
 }
 
 // Verdict of CompareImage.
@@ -228,7 +229,7 @@ func CompareImage(exp []XPart, obs []Part, o CmpOpt) (int, string, string) {
 	if o.MaxCoord >= 0 {
 		for _, p := range obs {
 			if p.Lo < 0 || p.Hi > o.MaxCoord {
-				return VBad, fmt.Sprintf("coordinate outside [0,%d]", o.MaxCoord), ""
+				return VBad, "coordinate-out-of-range", ""
 			}
 		}
 	}
@@ -300,7 +301,7 @@ func compareOnce(exp []XPart, obs []Part, o CmpOpt) (int, string) {
 		return VOK, ""
 	}
 	if !o.IgnoreMarkers {
-		dc := junctionMarkers(exp)
+		dc := junctionMarkers(exp, o.CyclicL)
 		es := MarkerSet(Markers(Plain(exp)))
 		os := MarkerSet(Markers(obs))
 		for m := range es {
@@ -321,7 +322,7 @@ func compareOnce(exp []XPart, obs []Part, o CmpOpt) (int, string) {
 // expected range parts that abut on the same strand and are consecutive in a
 // list: merging them (which the reductions are allowed to do) removes those
 // markers, keeping them (order lists do) keeps them: don't-care.
-func junctionMarkers(exp []XPart) map[Marker]bool {
+func junctionMarkers(exp []XPart, cyclicL int) map[Marker]bool {
 	dc := map[Marker]bool{}
 	// consecutive in reading order, skipping sites.
 	prev := -1
@@ -339,6 +340,10 @@ func junctionMarkers(exp []XPart) map[Marker]bool {
 				if lo.Hi == hi.Lo {
 					dc[Marker{Pos: lo.Hi - 1, Hi: true, Rev: a.Rev}] = true
 					dc[Marker{Pos: hi.Lo, Hi: false, Rev: a.Rev}] = true
+				}
+				if cyclicL > 0 && lo.Hi == cyclicL && hi.Lo == 0 {
+					dc[Marker{Pos: cyclicL - 1, Hi: true, Rev: a.Rev}] = true
+					dc[Marker{Pos: 0, Hi: false, Rev: a.Rev}] = true
 				}
 			}
 		}
@@ -399,6 +404,79 @@ func CollapseDups(aa []Atom) []Atom {
 			continue
 		}
 		out = append(out, a)
+	}
+	return out
+}
+
+// ImageRotate maps parts through a change of origin: residue k moves to
+// (k+n) mod L. A contiguous part that now crosses the origin is split into
+// two parts reading across it; a part covering all L residues stays [0,L)
+// (the statement's "a full-length feature stays full-length").
+func ImageRotate(pp []Part, n, L int) []XPart {
+	n %= L
+	if n < 0 {
+		n += L
+	}
+	var out []XPart
+	for k, p := range pp {
+		switch p.Kind {
+		case KSite:
+			x := XPart{Part: p, From: k}
+			g := (p.Lo + n) % L
+			x.Lo, x.Hi = g, g
+			if g == 0 {
+				x.SiteAlt = []int{0, L}
+			}
+			out = append(out, x)
+		case KPoint, KRange, KAmb:
+			if p.Hi-p.Lo == L {
+				q := p
+				q.Lo, q.Hi = 0, L
+				out = append(out, keep(q, k))
+				continue
+			}
+			lo := (p.Lo + n) % L
+			hi := lo + (p.Hi - p.Lo)
+			if hi <= L {
+				q := p
+				q.Lo, q.Hi = lo, hi
+				out = append(out, keep(q, k))
+				continue
+			}
+			a, b := p, p
+			a.Lo, a.Hi = lo, L
+			a.OpenHi = false
+			b.Lo, b.Hi = 0, hi-L
+			b.OpenLo = false
+			if p.Kind == KPoint {
+				a.Kind, b.Kind = KRange, KRange
+			}
+			a.InList, b.InList = true, true
+			if p.Rev {
+				out = append(out, keep(b, k), keep(a, k))
+			} else {
+				out = append(out, keep(a, k), keep(b, k))
+			}
+		default:
+			out = append(out, keep(p, k))
+		}
+	}
+	return out
+}
+
+// ReImage feeds an expectation through a further edit: f maps plain parts.
+func ReImage(xx []XPart, f func([]Part) []XPart) []XPart {
+	out := f(Plain(xx))
+	// carry SiteAlt/Vanished from the first stage where the part is unchanged
+	for i := range out {
+		src := xx[out[i].From]
+		out[i].From = src.From
+		if src.Vanished {
+			out[i].Vanished = true
+		}
+		if len(src.SiteAlt) > 0 && out[i].Kind == KSite && len(out[i].SiteAlt) == 0 {
+			out[i].SiteAlt = nil // recomputed by the caller if it matters
+		}
 	}
 	return out
 }
